@@ -73,7 +73,7 @@ def writerSession (f : List String) : IO String := do
         sinks := sinks.push (sinkSummary w.sink)
         w := FrameW.reset w (optNat fa); res := res.push "-"
       | ["rf", d, chunk, fa, ewd] =>
-        let src : Source := { data := (← loadBlob d), chunk := chunk.toNat!, failAt := optNat fa, eofWithData := ewd == "1" || ewd == "3" }
+        let src : Source := { data := (← loadBlob d), chunk := chunk.toNat!, failAt := optNat fa, eofWithData := ewd == "1" || ewd == "3" || ewd == "5" || ewd == "7" }
         let (w', _, n, e) := FrameW.readFrom w src
         w := w'; res := res.push s!"{n}/{errName e}"
       | _ => res := res.push "bad-op"
@@ -85,7 +85,7 @@ def readerSession (f : List String) : IO String := do
   match f with
   | conc :: blob :: chunk :: fa :: ewd :: ops =>
     let data ← loadBlob blob
-    let mkSrc (d : Array UInt8) : Source := { data := d, chunk := chunk.toNat!, failAt := optNat fa, eofWithData := ewd == "1" || ewd == "3" }
+    let mkSrc (d : Array UInt8) : Source := { data := d, chunk := chunk.toNat!, failAt := optNat fa, eofWithData := ewd == "1" || ewd == "3" || ewd == "5" || ewd == "7" }
     let mut r : FrameR.R := { FrameR.new (mkSrc data) with num := conc.toNat! }
     let mut res : Array String := #[]
     for op in ops do
@@ -135,7 +135,7 @@ def crSession (f : List String) : IO String := do
   match f with
   | o :: d :: chunk :: fa :: ewd :: toks =>
     let mkSrc (d : Array UInt8) (chunk fa ewd : String) : Source :=
-      { data := d, chunk := chunk.toNat!, failAt := optNat fa, eofWithData := ewd == "1" || ewd == "3" }
+      { data := d, chunk := chunk.toNat!, failAt := optNat fa, eofWithData := ewd == "1" || ewd == "3" || ewd == "5" || ewd == "7" }
     let c0 := CReader.new (mkSrc (← loadBlob d) chunk fa ewd)
     let (c1, ae) := if o == "-" then (c0, none) else CReader.apply c0 (parseOpts o).1
     let mut c := c1
